@@ -11,6 +11,9 @@ PROPERTY = 'C02'
 LEVEL = 'other'
 TARGETS = [
     ('levenshtein_distance', 'levenshtein.levenshtein_distance'),
+    ('nodes', 'graphtage.LeafNode.edits'), ('nodes', 'graphtage.NullNode.edits'), ('nodes', 'graphtage.ListNode.edits'),
+    ('nodes', 'graphtage.KeyValuePairEdit.__init__'), ('core', 'edits.Replace.__init__'), ('core', 'edits.Match.__init__'),
+    ('bounded', 'tree.Edit.has_non_zero_cost'),
 ]
 TRUSTED = [
     'structural induction over the tree (paper step): total cost 0 iff every leaf-level edit costs 0',
@@ -20,7 +23,10 @@ ASSUMPTIONS = [
 ]
 EXPLANATION = (
     "levenshtein_distance(s,t)==0 <=> s==t is discharged deductively for all strings from the real source "
-    "(loop invariants over the DP matrix). The per-node-class zero-iff-equal step and the CLI exit status are decided "
+    "(loop invariants over the DP matrix); LeafNode.edits costs 0 iff the payload texts are equal, NullNode.edits 0 iff "
+    "both are null, ListNode.edits is a zero-cost Match iff the child sequences are element-wise equal, Replace costs "
+    "at least 1, equal key/value components of a KeyValuePairEdit cost 0, and Edit.has_non_zero_cost (which drives the "
+    "exit status) returns final cost > 0. The remaining node classes and the CLI exit status are decided "
     "by a bounded stand-in: all document pairs in a small scope x 9 option combinations through TreeNode.diff and "
     "through graphtage.__main__.main; oracle: equality as data (same kind at every position).")
 
